@@ -340,12 +340,20 @@ def cases(tier, what="forward"):
     for s in SS:
         r = len(s)
         for d in [None] + lattice.dims(r) + [tuple(c) for k in range(2, r + 1) for c in itertools.combinations(range(r), k)] \
-                + ([(-1, 0)] if r >= 2 else []):
+                + ([(-1, 0)] if r >= 2 else []) \
+                + [tuple(reversed(c)) for k in range(2, r + 1) for c in itertools.combinations(range(r), k)] \
+                + [tuple(x - r for x in c) for c in itertools.combinations(range(r), 2)] + [(c[1] - r, c[0]) for c in itertools.combinations(range(r), 2)]:
             add("squeeze", [s], {"dim": d})
         for d in range(-r - 1, r + 1):
             add("unsqueeze", [s], {"dim": d})
         for d in itertools.combinations(range(r + 2), 2):
             add("unsqueeze", [s], {"dim": list(d)})
+            # the same positions in the other order and spelled negatively (positions refer to the RESULT, in any order)
+            add("unsqueeze", [s], {"dim": [d[1], d[0]]})
+            add("unsqueeze", [s], {"dim": [d[0] - (r + 2), d[1] - (r + 2)]}); add("unsqueeze", [s], {"dim": [d[1], d[0] - (r + 2)]})
+        if r <= 2:
+            for d in itertools.permutations(range(r + 3), 3):
+                add("unsqueeze", [s], {"dim": list(d)})
         for a in lattice.dims(r):
             for b in lattice.dims(r):
                 add("movedim", [s], {"src": a, "dst": b})
